@@ -11,9 +11,11 @@ import (
 	"sort"
 	"strings"
 	"sync"
+	"sync/atomic"
 
 	"github.com/Eyevinn/mp4ff/mp4"
 
+	"verif/internal/drv"
 	"verif/internal/ref/boxwalk"
 	"verif/internal/ref/cencref"
 	"verif/internal/ref/fragref"
@@ -518,7 +520,7 @@ func c06SampleEntry(buf []byte) string {
 }
 
 // c06CheckRoundTrip: the C06 clauses on the decrypted file.
-func c06CheckRoundTrip(c *vf.Ctx, cs *c06Case, f *c06File, clear, dec []byte, det func(string) interface{}) {
+func c06CheckRoundTrip(c *c06Ctx, cs *c06Case, f *c06File, clear, dec []byte, det func(string) interface{}) {
 	got, err := c06Samples(dec)
 	if err != nil {
 		c.Fail("decrypted file unreadable", "the decrypted file is a well-formed fragmented file", det(err.Error()))
@@ -614,7 +616,7 @@ func c06ParseProtection(buf []byte) (*c06Tenc, error) {
 }
 
 // c06CheckEncrypted: the C07 clauses on the encrypted file.
-func c06CheckEncrypted(c *vf.Ctx, cs *c06Case, f *c06File, clear, enc []byte, det func(string) interface{}) {
+func c06CheckEncrypted(c *c06Ctx, cs *c06Case, f *c06File, clear, enc []byte, det func(string) interface{}) {
 	fail := func(sig, clause, extra string) { c.Fail(sig, clause, det(extra)) }
 	key, _ := hexDecode(cs.Key)
 	iv, _ := hexDecode(cs.IV)
@@ -930,39 +932,104 @@ func c06CheckEncrypted(c *vf.Ctx, cs *c06Case, f *c06File, clear, enc []byte, de
 
 // ---------- one case
 
-func c06Run(c *vf.Ctx, prop string, cs *c06Case) {
+// c06Tools are driver processes of cmd/mp4ff-encrypt and cmd/mp4ff-decrypt (their own encryptFile / decryptFile).
+type c06Tools struct{ enc, dec *drv.Proc }
+
+func (t *c06Tools) encrypt(clear []byte, cs *c06Case) ([]byte, error) {
+	resp, err := t.enc.Call("encrypt", []byte(cs.Scheme), []byte("11112222333344445555666677778888"), []byte(cs.Key), []byte(cs.IV), clear)
+	if err != nil {
+		vf.Harness("encrypt driver: %v", err)
+	}
+	switch string(resp[0]) {
+	case "OK":
+		return resp[1], nil
+	case "PANIC":
+		panic(fmt.Sprintf("mp4ff-encrypt panicked: %s at %s", resp[1], resp[2]))
+	}
+	return nil, fmt.Errorf("%s", resp[1])
+}
+
+func (t *c06Tools) decrypt(enc []byte, key string) ([]byte, error) {
+	resp, err := t.dec.Call("decrypt", []byte(key), enc)
+	if err != nil {
+		vf.Harness("decrypt driver: %v", err)
+	}
+	switch string(resp[0]) {
+	case "OK":
+		return resp[1], nil
+	case "PANIC":
+		panic(fmt.Sprintf("mp4ff-decrypt panicked: %s at %s", resp[1], resp[2]))
+	}
+	return nil, fmt.Errorf("%s", resp[1])
+}
+
+// c06Run runs one case through the library API and, when tools != nil, also through the two command-line tools'
+// own encryptFile / decryptFile (same oracles on their output).
+func c06Run(c *vf.Ctx, prop string, cs *c06Case, tools *c06Tools) {
 	f, ok := c06Build(cs)
 	if !ok {
 		c.Outcome("case not expressible (VCL unit shorter than its slice header under cbcs)")
 		return
 	}
 	clear := f.All()
-	det := func(extra string) interface{} {
-		return map[string]interface{}{"case": cs, "extra": extra, "extras": c06ExtraList(cs.Extras)}
-	}
 	// the clear file must be readable by the independent reader with the truth we built (harness self-check)
 	if got, err := c06Samples(clear); err != nil || len(got) != len(f.Samples) {
 		vf.Harness("c06: clear file unreadable by the reference reader: %v", err)
 	}
-	guard(c, "crypto", "encrypting and decrypting do not panic", func() interface{} { return det("") }, func() {
-		enc, err := c06Encrypt(clear, cs)
-		if err != nil {
-			c.Fail("encrypt error: "+errRoot(err), "a clear fragmented track can be encrypted", det(err.Error()))
-			return
+	paths := []string{"api"}
+	if tools != nil {
+		paths = append(paths, "tool")
+	}
+	for _, path := range paths {
+		det := func(extra string) interface{} {
+			return map[string]interface{}{"case": cs, "extra": extra, "extras": c06ExtraList(cs.Extras), "path": path}
 		}
-		if prop == "C07" {
-			c06CheckEncrypted(c, cs, f, clear, enc, det)
-			c.Outcome("encrypted " + cs.Codec + "/" + cs.Scheme)
-			return
+		pfx := ""
+		if path == "tool" {
+			pfx = "tool: "
 		}
-		dec, err := c06Decrypt(enc, cs.Key)
-		if err != nil {
-			c.Fail("decrypt error: "+errRoot(err), "what was encrypted can be decrypted with the same key", det(err.Error()))
-			return
-		}
-		c06CheckRoundTrip(c, cs, f, clear, dec, det)
-		c.Outcome("round trip " + cs.Codec + "/" + cs.Scheme)
-	})
+		cc := &c06Ctx{c, pfx}
+		guard(c, pfx+"crypto", "encrypting and decrypting do not panic", func() interface{} { return det("") }, func() {
+			var enc []byte
+			var err error
+			if path == "tool" {
+				enc, err = tools.encrypt(clear, cs)
+			} else {
+				enc, err = c06Encrypt(clear, cs)
+			}
+			if err != nil {
+				c.Fail(pfx+"encrypt error: "+errRoot(err), "a clear fragmented track can be encrypted", det(err.Error()))
+				return
+			}
+			if prop == "C07" {
+				c06CheckEncrypted(cc, cs, f, clear, enc, det)
+				c.Outcome(pfx + "encrypted " + cs.Codec + "/" + cs.Scheme)
+				return
+			}
+			var dec []byte
+			if path == "tool" {
+				dec, err = tools.decrypt(enc, cs.Key)
+			} else {
+				dec, err = c06Decrypt(enc, cs.Key)
+			}
+			if err != nil {
+				c.Fail(pfx+"decrypt error: "+errRoot(err), "what was encrypted can be decrypted with the same key", det(err.Error()))
+				return
+			}
+			c06CheckRoundTrip(cc, cs, f, clear, dec, det)
+			c.Outcome(pfx + "round trip " + cs.Codec + "/" + cs.Scheme)
+		})
+	}
+}
+
+// c06Ctx prefixes signatures with the path ("tool: ") so that a defect of the command-line wrappers is named.
+type c06Ctx struct {
+	*vf.Ctx
+	pfx string
+}
+
+func (c *c06Ctx) Fail(sig, clause string, detail interface{}) bool {
+	return c.Ctx.Fail(c.pfx+sig, clause, detail)
 }
 
 func c06ExtraList(mask int) []string {
@@ -1129,14 +1196,33 @@ func runC0607(c *vf.Ctx, prop string) {
 	cases := c06Cases(thorough)
 	c.Rule = "product enumeration of clear fragmented files: codec {AVC, HEVC, AAC} x scheme {cenc, cbcs} x IV {0, ..ff, ff..ff (wrap), 8-byte, 8-byte ff..ff} x 2 keys x sample layouts (1 NAL unit: every size 1..420 (thorough: 1..1200 and around 4096 and 65536) x {non-VCL, 3 slice variants with real slice headers}; 2 and 3 NAL units: all class patterns x size subsets; 39..43 protected NAL units in one sample; clear runs around 65535 and 131070 bytes) x {1 sample, chained 2+1 samples in 2 fragments} x audio frame sizes x every subset of <= 3 (thorough: 4) of 10 extra-box choices (uuid tfxd/tfrf/vendor, unknown, free; in moof and traf; before/after trun and mfhd). Each file is encrypted through DecodeFile/InitProtect/EncryptFragment/Encode and (C06) decrypted through DecodeFile/DecryptInit/DecryptSegment/Encode. C07 reads the encrypted bytes with ref/boxwalk: sub-sample partition, clear/protected placement against the generator's NAL map and slice header sizes, saiz/saio against the senc entries, IV progression, and ref/cencref (own CTR and CBC-pattern modes over the AES block primitive, NIST-vector self-test) on every sample; everything else in the fragment compared box by box with the clear input. C06 reads the decrypted bytes with ref/fragref: every sample byte-for-byte, size/duration/flags/cto/decode time, sample entry type, and the list of all non-protection boxes (trun data_offset checked through the sample bytes)."
 	c.Bound = fmt.Sprintf("%d cases (%s)", len(cases), c.Tier)
+	// the command-line tools' own encryptFile / decryptFile (overlay drivers): every 4th case (quick), all (thorough)
+	nw := 16
+	pool := make(chan *c06Tools, nw)
+	for i := 0; i < nw; i++ {
+		pool <- &c06Tools{drv.Start("mp4ff-encrypt"), drv.Start("mp4ff-decrypt")}
+	}
+	var toolCases atomic.Int64
 	c.Parallel(len(cases), func(i int) {
 		if c.Expired() {
 			return
 		}
-		c06Run(c, prop, cases[i])
+		var t *c06Tools
+		if thorough || i%4 == 0 {
+			t = <-pool
+			defer func() { pool <- t }()
+			toolCases.Add(1)
+		}
+		c06Run(c, prop, cases[i], t)
 		c.Evals.Add(1)
 		c.DistinctN.Add(1)
 	})
+	for i := 0; i < nw; i++ {
+		t := <-pool
+		t.enc.Close()
+		t.dec.Close()
+	}
+	c.Set("cases_also_run_through_the_cmd_tools", toolCases.Load())
 	if prop == "C06" {
 		c06ThirdParty(c)
 	}
@@ -1251,7 +1337,10 @@ func replayC0607(c *vf.Ctx, detail json.RawMessage, prop string) {
 		c06ThirdParty(c)
 		return
 	}
-	c06Run(c, prop, d.Case)
+	t := &c06Tools{drv.Start("mp4ff-encrypt"), drv.Start("mp4ff-decrypt")}
+	defer t.enc.Close()
+	defer t.dec.Close()
+	c06Run(c, prop, d.Case, t)
 }
 
 func readRepoFile(rel string) ([]byte, error) { return os.ReadFile(filepath.Join(repoRoot(), rel)) }
